@@ -212,6 +212,7 @@ type decGenCfg struct {
 	MaxLen    int
 	WithRules bool
 	Timeout   time.Duration
+	LeafOnly  bool // only hand the byte strings to onLeaf (another property's check uses them as inputs)
 }
 
 // runCBEDecGen enumerates byte strings with TLC and compares the real decoder with the machine.
@@ -241,6 +242,10 @@ func runCBEDecGen(c *Check, g decGenCfg, onLeaf func(lf decLeaf, doc []byte)) in
 					mu.Lock()
 					skipped++
 					mu.Unlock()
+					continue
+				}
+				if g.LeafOnly {
+					onLeaf(lf, doc)
 					continue
 				}
 				compareCBEDecode(c, g.Label, lf, doc, cfg)
